@@ -74,21 +74,27 @@ def gen_vec(rng, nn, nd):
     return ns, ds
 
 
-def build(pt, nn, nd, version, consts=None):
+def build(pt, nn, nd, version, consts=None, assemble=False):
     if consts is None:
         N = [pt.Btoi(pt.Txn.application_args[i]) for i in range(nn)]
         D = [pt.Btoi(pt.Txn.application_args[nn + i]) for i in range(nd)]
     else:
         N = [pt.Int(x) for x in consts[0]]
         D = [pt.Int(x) for x in consts[1]]
+    if assemble:
+        # constant factors assembled into a constant block; the same constants occur again (in another order) in front of the ratio,
+        # so that they repeat and their frequency ranks differ from their order of appearance
+        again = [pt.Pop(pt.Int(x)) for x in reversed(list(consts[0]) + list(consts[1]))] + [pt.Pop(pt.Int(x)) for x in consts[1][:2]]
+        prog = pt.Seq(*again, pt.Log(pt.Itob(pt.WideRatio(N, D))), pt.Int(1))
+        return pt.compileTeal(prog, pt.Mode.Application, version=version, assembleConstants=True)
     prog = pt.Seq(pt.Log(pt.Itob(pt.WideRatio(N, D))), pt.Int(1))
     return pt.compileTeal(prog, pt.Mode.Application, version=version)
 
 
 def run_case(pt, progs, ns, ds, version, variant):
     nn, nd = len(ns), len(ds)
-    if variant == "const":
-        teal = build(pt, nn, nd, version, (ns, ds))
+    if variant in ("const", "const_assembled"):
+        teal = build(pt, nn, nd, version, (ns, ds), assemble=(variant == "const_assembled"))
         prog = avm.parse_any(teal)
         args = []
     else:
@@ -236,7 +242,7 @@ def run_shard(shard):
         if nn == 1 and nd == 1:
             continue
         version = rng.choice([5, 6, 7, 8, 9, 10])
-        variant = "const" if rng.random() < .08 else "runtime"
+        variant = rng.choice(["const", "const_assembled"]) if rng.random() < .1 else "runtime"
         ns, ds = gen_vec(rng, nn, nd)
         if it % 10 == 0:
             check_reuse(pt, acc, rng, ns, ds, version)
